@@ -118,7 +118,8 @@ fn cmd_run(args: &[String]) -> i32 {
             "seams" => seams::run(&cat, &seams::Config { focus: focus.clone() }, &mut stats, rs),
             "zip" => {
                 let max_len = arg(args, "--max-len").map(|x| x.parse().unwrap()).unwrap_or(16 << 10);
-                zip::run(&zip::Config { focus: focus.clone(), max_len }, &mut stats, rs, &cat)
+                let big_len = arg(args, "--big-len").map(|x| x.parse().unwrap()).unwrap_or(192 << 10);
+                zip::run(&zip::Config { focus: focus.clone(), max_len, big_len }, &mut stats, rs, &cat)
             }
             other => {
                 eprintln!("unknown engine {other}");
@@ -209,7 +210,7 @@ fn cmd_minimise(args: &[String]) -> i32 {
         return 0;
     }
     // clauses with an expected value keep the valid encoding intact and only shrink the suffix
-    if matches!(c.clause.as_str(), "sinks" | "sources" | "eof-reject" | "zip-roundtrip" | "ctor-index") {
+    if matches!(c.clause.as_str(), "sinks" | "sinks-history" | "sources" | "eof-reject" | "zip-roundtrip" | "ctor-index") {
         // the input is a valid encoding, a content block or goes with a program: kept as it is
         std::fs::write(outp, serde_json::to_vec_pretty(&v).unwrap()).unwrap();
         return 0;
